@@ -98,6 +98,22 @@ def eval_atmos(row):
     return devs
 
 
+def eval_scope11(row):
+    """specs/ei/Scope11.tla: the SCOPE11 mass index as a number, per smoke number x engine type x mode."""
+    from AEIC.emissions.ei.pmnvol import calculate_PMnvolEI_scope11
+    from AEIC.performance.types import ThrustMode
+
+    sn = float(row['sn'])
+    devs = []
+    for eng, per_mode in row['ei'].items():
+        prof = calculate_PMnvolEI_scope11(tmv(sn, sn, sn, sn), eng, 5.0)
+        for m in ThrustMode:
+            got, want = float(prof[m]), per_mode[m.value] / 1e6
+            if not (math.isfinite(got) and abs(got - want) <= ATM_TOL * max(abs(want), 1e-2)):
+                devs.append((f'scope11:value:{eng}', f'smoke number {sn:g}, {eng}, bypass ratio 5, {m.value}: index {got!r} g/kg; published equations (Scope11.tla): {want!r}'))
+    return devs
+
+
 def eval_profile(case):
     """specs/ei/Profiles.tla: MEEM on one whole-flight altitude profile - every index finite and non-negative."""
     from AEIC.emissions.ei.pmnvol import PMnvol_MEEM
@@ -138,6 +154,8 @@ def eval_case(job):
             return eval_atmos(case)
         if kind == 'Prof':
             return eval_profile(case)
+        if kind == 'Sc11':
+            return eval_scope11(case)
         if kind == 'Isa':
             from AEIC.utils.standard_atmosphere import (
                 altitude_from_pressure_isa_bada4,
@@ -373,12 +391,12 @@ def run(ctx: Ctx):
     ctx.rule = (
         'lattice cases per function (TLC-enumerated): ISA 0..26 km every 500 m; thrust categories for all calibration triples over {1,2,4,6} x 15 flows; '
         'sulfur 4 contents x 4 yields; HC/CO fit: calibration flows/indices as half-decade powers of ten x 11 evaluation flows (quick 24 057, thorough 180 224); '
-        'NOx regression: 6 318 calibration sets; FOA3 9 thrusts x 3 HC indices; ISA pressure ratio, FFM2 factor at Mach 0 / 0.4 / 0.8 / 0.95, HC/CO and NOx (humidity) ambient corrections at ISA and ISA+10 K as fixed-point numbers every 500 m up to 25 km (Atmos.tla); SCOPE11 11 smoke numbers x 4 modes x 2 engine types; MEEM on every altitude profile of 2..3 (4) points over 8 levels from the ground to 14 km (Profiles.tla); speciation 4 modes; non-trivial = clamped / tie / non-monotone calibration / stratospheric'
+        'NOx regression: 6 318 calibration sets; FOA3 9 thrusts x 3 HC indices; ISA pressure ratio, FFM2 factor at Mach 0 / 0.4 / 0.8 / 0.95, HC/CO and NOx (humidity) ambient corrections at ISA and ISA+10 K as fixed-point numbers every 500 m up to 25 km (Atmos.tla); SCOPE11 11 smoke numbers x 4 modes x 2 engine types (rules) and 13 smoke numbers x 4 modes x 2 engine types as fixed-point numbers (Scope11.tla); MEEM on every altitude profile of 2..3 (4) points over 8 levels from the ground to 14 km (Profiles.tla); speciation 4 modes; non-trivial = clamped / tie / non-monotone calibration / stratospheric'
     )
     ctx.not_covered += [
         'the transcendental equations are decided as numbers to 2e-4 relative on the 500 m lattice (six-decimal fixed point in TLA+, specs/ei/Atmos.tla): a deviation below that is not seen; HC/CO and NOx ambient corrections at ISA and ISA+10 K only',
         'HC/CO for non-positive fuel flows',
-        'SCOPE11 magnitude (decided: cap of the smoke number at 40, no-data values, monotonicity) and MEEM magnitudes (only finite and non-negative)',
+        'MEEM magnitudes (only finite and non-negative on every altitude profile); SCOPE11 is decided as numbers for bypass ratio 5 only',
     ]
     ctx.assumptions += ['sea-level ISA ambient state makes the ambient correction factors exactly 1', 'branch-condition ties of the HC/CO fit admit both outcomes']
     if ctx.replay:
@@ -398,6 +416,13 @@ def run(ctx: Ctx):
     # the transcendental equations as numbers (six-decimal fixed point, specs/common/Fix.tla): one row per 500 m
     tlc.check(ctx, 'ei/Atmos', 'ei/MC_Atmos.cfg', workers=4)
     jobs += [('Atm', {'c': {'h': e['h']}, 'o': {}, **e}) for e in tlc.check(ctx, 'ei/Atmos', 'ei/Gen_Atmos.cfg', workers=1)['emitted']]
+    # SCOPE11 as numbers (Scope11.tla)
+    tlc.check(ctx, 'ei/Scope11', 'ei/MC_Scope11.cfg', workers=4)
+    seen11 = set()
+    for e in tlc.check(ctx, 'ei/Scope11', 'ei/Gen_Scope11.cfg', workers=1)['emitted']:
+        if e['sn'] not in seen11:
+            seen11.add(e['sn'])
+            jobs.append(('Sc11', {'c': {'sn': e['sn']}, 'o': {}, **e}))
     # whole-flight altitude profiles (MEEM looks at the top of the flight): every sequence of 2..3 (4) levels
     tlc.check(ctx, 'ei/Profiles', 'ei/MC_Profiles.cfg', workers=4)
     profs = tlc.check(ctx, 'ei/Profiles', 'ei/Gen_Profiles.cfg', workers=1, sub=None if ctx.quick else {'MaxLen = 3': 'MaxLen = 4'})['emitted']
@@ -410,7 +435,7 @@ def run(ctx: Ctx):
     ctx.log(f'evaluating {len(jobs)} lattice cases on the real functions')
     for (kind, case), devs in zip(jobs, pmap(eval_case, jobs)):
         o = case['o']
-        nt = kind == 'Atm' or (kind == 'Prof' and case['low']) or (kind == 'Hc' and (o['rule'] != 'regular' or len(o['alts']) > 1)) or (kind == 'Isa' and case['c']['h'] > 11000) or kind in ('Cat', 'Nox', 'Foa', 'Sox', 'Scope')
+        nt = kind in ('Atm', 'Sc11') or (kind == 'Prof' and case['low']) or (kind == 'Hc' and (o['rule'] != 'regular' or len(o['alts']) > 1)) or (kind == 'Isa' and case['c']['h'] > 11000) or kind in ('Cat', 'Nox', 'Foa', 'Sox', 'Scope')
         ctx.case_done((kind, case['c']), nontrivial=nt)
         if kind in ('Hc', 'Nox'):
             ctx.sample({'kind': kind, **case}, limit=4)
